@@ -527,7 +527,7 @@ theorem PSim.graphTriples {B₁ B₂ s₁ s₂} (exc : PyErr) (ts : List (List T
 
 theorem Stream.graph_eq (exc : PyErr) (s : Stream) (g : Term) (ts : List (List Term)) :
     s.graph exc g ts =
-      match s.enc.te.graph g with
+      match s.enc.te.startRow.graph g with
       | (te', .error e) => ({ s with enc := { s.enc with te := te' } }, [], some e)
       | (te', .ok (rows, w)) =>
         let x := Stream.graphTriples exc
@@ -536,7 +536,7 @@ theorem Stream.graph_eq (exc : PyErr) (s : Stream) (g : Term) (ts : List (List T
         | some e => (x.1, x.2.1, some e)
         | none => ((x.1.emit [Row.graphEnd]).1, x.2.1 ++ (x.1.emit [Row.graphEnd]).2.toList, none) := by
   unfold Stream.graph
-  rcases s.enc.te.graph g with ⟨te', e | ⟨rows, w⟩⟩
+  rcases s.enc.te.startRow.graph g with ⟨te', e | ⟨rows, w⟩⟩
   · rfl
   · dsimp only
     generalize Stream.graphTriples exc _ ts [] = x
@@ -545,7 +545,7 @@ theorem Stream.graph_eq (exc : PyErr) (s : Stream) (g : Term) (ts : List (List T
 theorem Stream.graph_keeps (exc : PyErr) (s : Stream) (g : Term) (ts : List (List Term)) :
     s.Keeps (s.graph exc g ts).1 := by
   rw [Stream.graph_eq]
-  rcases s.enc.te.graph g with ⟨te', e | ⟨rows, w⟩⟩
+  rcases s.enc.te.startRow.graph g with ⟨te', e | ⟨rows, w⟩⟩
   · exact s.withEnc_keeps _
   · dsimp only
     have hk := Stream.graphTriples_keeps exc
@@ -560,7 +560,7 @@ theorem Stream.graph_keeps (exc : PyErr) (s : Stream) (g : Term) (ts : List (Lis
 theorem Stream.graph_ne_nil (exc : PyErr) (s : Stream) (g : Term) (ts : List (List Term)) :
     ∀ f ∈ (s.graph exc g ts).2.1, f.rows ≠ [] := by
   rw [Stream.graph_eq]
-  rcases s.enc.te.graph g with ⟨te', e | ⟨rows, w⟩⟩
+  rcases s.enc.te.startRow.graph g with ⟨te', e | ⟨rows, w⟩⟩
   · simp
   · dsimp only
     have hk := Stream.graphTriples_ne_nil exc
@@ -579,7 +579,7 @@ theorem PSim.graph {A₁ A₂ s₁ s₂} (h : PSim A₁ s₁ A₂ s₂) (exc : P
          (A₂ ++ (s₂.graph exc g ts).2.1.flatMap (·.rows)) (s₂.graph exc g ts).1 ∧
     (s₁.graph exc g ts).2.2 = (s₂.graph exc g ts).2.2 := by
   rw [Stream.graph_eq, Stream.graph_eq, h.sim.2.2.1]
-  rcases s₂.enc.te.graph g with ⟨te', e | ⟨rows, w⟩⟩
+  rcases s₂.enc.te.startRow.graph g with ⟨te', e | ⟨rows, w⟩⟩
   · simpa using h.withEnc _
   · dsimp only
     have hk := PSim.graphTriples (B₁ := A₁) (B₂ := A₂) (acc₁ := []) (acc₂ := []) exc ts
